@@ -102,12 +102,22 @@ def verdict(res, eng, root, case, msgs):
             res.violation("messages-name-other-things-than-the-schema-errors", case, names(msgs)[:8], want[:8])
 
 
+def _flip(r, c):
+    """Another letter case of ONE character, only where that is a pure case change (same string again after lower-casing: 'ß'.upper()
+    is 'SS' and 'ŉ'.upper() is two characters - those are different strings, not other spellings of the same one)."""
+    u = c.upper()
+    if r.random() < 0.5 and len(u) == 1 and u.lower() == c.lower():
+        return u
+    l = c.lower()
+    return l if len(l) == 1 and l.upper().lower() == l else c
+
+
 def recase(r, d):
     """Plain-dict copy with random key / string-value case and extra hidden keys at every level."""
     if isinstance(d, dict):
         out = {}
         for k, v in d.items():
-            kk = k if k.startswith("__") else "".join(c.upper() if r.random() < 0.5 else c for c in k)
+            kk = k if k.startswith("__") else "".join(_flip(r, c) for c in k)
             out[kk] = recase(r, v)
         if r.random() < 0.5:
             out["__" + r.choice(["extra", "note", "xyz"]) + "__"] = r.choice([1, "x", {"a": 1}, [1, 2]])
@@ -115,7 +125,7 @@ def recase(r, d):
     if isinstance(d, (list, tuple)):
         return [recase(r, v) for v in d]
     if isinstance(d, str):
-        return "".join(c.upper() if r.random() < 0.5 else c.lower() for c in d)
+        return "".join(_flip(r, c) for c in d)
     return d
 
 
